@@ -216,10 +216,28 @@ class RangeVal(Ext):
             return d
         return n
 
+    def _concrete(self):
+        return all(isinstance(x, int) and not isinstance(x, bool) for x in (self.start, self.stop, self.step))
+
     def py_contains(self, I, item):
+        if self._concrete() and isinstance(item, (int, Fraction)) and not isinstance(item, bool):
+            return item in range(self.start, self.stop, self.step)
+        if self.step != 1:
+            raise Unsupported("membership in a range with a step, for symbolic operands")
+        if isinstance(item, Sym) and item.kind != "int" or isinstance(item, Fraction):
+            raise Unsupported("membership of a non-integer in a symbolic range")
         lo = compare(I, "LtE", self.start, item)
         hi = compare(I, "Lt", item, self.stop)
         return sym_and(lo, hi)
+
+    def py_getitem(self, I, key):
+        if self._concrete() and (isinstance(key, int) and not isinstance(key, bool) or isinstance(key, slice) and all(x is None or isinstance(x, int) for x in (key.start, key.stop, key.step))):
+            try:
+                r = range(self.start, self.stop, self.step)[key]
+            except IndexError:
+                raise PyExc("IndexError", ("range object index out of range",)) from None
+            return RangeVal(r.start, r.stop, r.step) if isinstance(r, range) else r
+        raise Unsupported("getitem on a symbolic range")
 
 
 def sym_and(a, b):
@@ -427,6 +445,12 @@ def binop(I, op, a, b, inplace=False):
     if inplace and isinstance(a, PySet) and isinstance(b, PySet) and op in ("|", "&", "-", "^"):
         a.items[:] = a.py_binop(I, op, b, False).items          # set.__ior__ & co. update the SAME set
         return a
+    if inplace and isinstance(a, Ext) and hasattr(a, "py_ibinop"):
+        r = a.py_ibinop(I, op, b)
+        if r is not NotImplemented:
+            return r
+    if inplace and isinstance(a, list) and isinstance(b, Ext) and hasattr(b, "py_ibinop") and op == "+":
+        raise Unsupported("plain list extended in place by a list with symbolic segments")
     # user-defined / modelled operands first
     if isinstance(a, Ext) and not isinstance(a, BuiltinType) or isinstance(a, BuiltinType):
         r = a.py_binop(I, op, b, False)
@@ -527,11 +551,19 @@ def unop(I, opname, v):
         return v
     if opname == "Invert":
         if isinstance(v, Tensor):
-            return Tensor(v.shape, [sym_not(x) if kind_of(x) == "bool" else unop(I, opname, x) for x in v.data], "bool")
+            if v.dtype == "bool" or all(kind_of(x) == "bool" for x in v.data):
+                return Tensor(v.shape, [sym_not(x) for x in v.data], "bool")            # logical not on boolean arrays
+            if v.dtype == "int" and all(kind_of(x) in ("int", "bool") for x in v.data):
+                return Tensor(v.shape, [unop(I, opname, int(x) if isinstance(x, bool) else x) for x in v.data], "int")      # bitwise not on integer arrays: -x-1
+            raise PyExc("TypeError", ("ufunc 'invert' not supported for the input types",))
         if isinstance(v, bool):
             return -int(v) - 1
         if isinstance(v, int):
             return ~v
+        if isinstance(v, Sym) and v.kind == "int":
+            return mk(-v.t - 1)
+        if isinstance(v, Sym) and v.kind == "bool":
+            raise Unsupported("~ on a symbolic truth value (numpy.bool_: logical not; Python bool: -x-1)")
     raise Unsupported(f"unary {opname} on {type(v).__name__}")
 
 
@@ -1275,7 +1307,7 @@ def isinstance_(I, v, cls):
         if n == "list":
             return isinstance(v, list)
         if n == "tuple":
-            return isinstance(v, tuple)
+            return isinstance(v, tuple) or (isinstance(v, Obj) and any(getattr(c, "nt_fields", None) is not None for c in v.cls.mro))
         if n == "dict":
             return isinstance(v, dict)
         if n == "ndarray":
